@@ -25,3 +25,57 @@ def body_form(ctx, rule, inst, U, imp, fn, want, where=None, inline=()):
     ok = len(outs) == 1 and not outs[0][0] and outs[0][1] == "val" and S.match(T.canon(outs[0][2]), want) is None
     ctx.ob(rule, inst, ok, "body is %s, expected %s" % (obs, T.show(S.strip_R(want))), b["span"])
     return ok
+
+
+ASSIGN_OPS = {"core::ops::arith::AddAssign": ("core::ops::arith::Add", "add_assign"),
+              "core::ops::arith::SubAssign": ("core::ops::arith::Sub", "sub_assign"),
+              "core::ops::arith::MulAssign": ("core::ops::arith::Mul", "mul_assign"),
+              "core::ops::arith::DivAssign": ("core::ops::arith::Div", "div_assign"),
+              "core::ops::arith::RemAssign": ("core::ops::arith::Rem", "rem_assign")}
+
+
+def assign_ops(ctx, rule, config, w, q):
+    """Compound-assignment operators of a quantity type (the pinned tree has none; they are a natural later
+    addition) must be defined THROUGH the checked operator — `*self = *self op rhs`, the callee resolved to the
+    type's own impl of the binary operator with the same right-hand type — so that everything decided for `op`
+    (conversion, the mixed-unit panic of quantities without reference unit, exactness) carries over.  Any other
+    body is an unchecked second implementation of the operation and is reported."""
+    from . import model
+    U = w.U
+    n = 0
+    for c in w.crates:
+        for imp in c.impls:
+            tr = imp.get("trait")
+            if tr not in ASSIGN_OPS or model.ty_key(imp["self_ty"]).lstrip("&") != q.path:
+                continue
+            op_trait, fn = ASSIGN_OPS[tr]
+            rhs_ty = model.ty_key(imp["trait_args"][1]) if len(imp.get("trait_args", [])) > 1 else q.path
+            inst = "%s/%s %s= %s" % (config, q.path, op_trait.rsplit("::", 1)[1], rhs_ty)
+            b = U.item_body(imp, fn)
+            ok, why = False, "no body"
+            if b is not None:
+                e = b["value"]
+                while e is not None and e["k"] == "block":
+                    if len(e["stmts"]) == 1 and e["expr"] is None and e["stmts"][0]["k"] == "expr":
+                        e = e["stmts"][0]["e"]
+                    elif not e["stmts"] and e["expr"] is not None:
+                        e = e["expr"]
+                    else:
+                        break
+                why = "body is not the single statement `*self = *self op rhs`"
+                if e is not None and e["k"] == "assign" and e["l"]["k"] == "deref" and e["l"]["e"]["k"] == "var" and e["l"]["e"]["name"] == "self":
+                    r = model.peel(e["r"])
+                    if r is not None and r["k"] == "call" and r.get("fn", {}).get("trait") == op_trait and len(r["args"]) == 2:
+                        a0, a1 = r["args"]
+                        a0_ok = a0["k"] == "deref" and a0["e"]["k"] == "var" and a0["e"]["name"] == "self"
+                        p1 = model.peel(a1)
+                        rhs_name = b["params"][1]["pat"]["name"] if len(b["params"]) > 1 and b["params"][1].get("pat", {}).get("k") == "bind" else None
+                        a1_ok = p1 is not None and p1["k"] == "var" and p1["name"] == rhs_name
+                        res = r["fn"].get("resolved") or {}
+                        tys = [model.ty_key(x) for x in r["fn"].get("args", [])]
+                        target_ok = tys[:1] == [q.path] and (len(tys) < 2 or tys[1].lstrip("&") == rhs_ty.lstrip("&")) and res.get("impl_crate_local", True)
+                        ok = a0_ok and a1_ok and target_ok
+                        why = "assigns %s::%s(%s) — expected the type's own operator applied to (*self, rhs)" % (op_trait.rsplit("::", 1)[1], r["fn"]["name"], tys)
+            ctx.ob(rule, inst, ok, "compound assignment is not defined through the checked operator: %s" % why, (b or imp)["span"], nontrivial=False)
+            n += 1
+    return n
